@@ -293,6 +293,46 @@ def main():
             descr.append(replay)
         except ValueError:
             dist["unprintable"] += 1
+    # ---- whole programs: loading, validating and running a model cleans every argument at least twice; the raw arguments the
+    #      program holds (and therefore what to_string() writes) are the same before and after ----
+    def tagged(v):
+        if isinstance(v, (list, tuple)):
+            return [type(v).__name__] + [tagged(x) for x in v]
+        if isinstance(v, dict):
+            return ["dict"] + sorted((k, tagged(x)) for k, x in v.items())
+        if hasattr(v, "result_name") and hasattr(v, "arguments"):
+            return ["Command", v.result_name]
+        return [type(v).__name__, repr(v)]
+
+    def raw_arguments(pr):
+        return [(c.result_name, [(a.name, tagged(a.value)) for a in c.arguments]) for c in pr.commands.values()]
+    dist["whole_program_runs"] = 0
+    for k in range(max(8, n // 60)):
+        lines = ["A = EEMSRead(InFileName = in.csv, InFieldName = a, DataType = %s%s)" % (rnd.choice(["Float", "Integer", '"Float"']), rnd.choice(["", ", MissingVal = -9999"])),
+                 "F = CvtToFuzzy(InFieldName = A, TrueThreshold = %s, FalseThreshold = 0, Direction = %s)" % (rnd.choice(["3", "2.5", "7"]), rnd.choice(["LowToHigh", "HighToLow"])),
+                 "S = WeightedSum(InFieldNames = [A, A], Weights = [%s, 2])" % rnd.choice(["1", "0.5"]),
+                 "N = NormalizeMeanToMid(InFieldName = A, IgnoreZeros = %s, NormalValues = [0, 0.25, 0.5, 0.75, 1])" % rnd.choice(["true", "False", "1", "0"]),
+                 "U = FuzzySelectedUnion(InFieldNames = [F], TruestOrFalsest = Truest, NumberToConsider = 1)",
+                 "W = EEMSWrite(OutFileName = %s, OutFieldNames = [S, N])" % rnd.choice(["out.csv", "sub/out.csv"])]
+        rnd.shuffle(lines)
+        src = "\n".join(lines[:rnd.randint(3, 6)] + [l for l in lines if l.startswith("A =")][:1])
+        src = "\n".join(dict.fromkeys(src.split("\n")))
+        try:
+            pr = Program.from_source(src, libraries=EEMS_CSV_LIBRARIES, working_dir=wd)
+            before, text0 = raw_arguments(pr), pr.to_string()
+            try:
+                pr.run()
+            except Exception:
+                pass
+            after, text1 = raw_arguments(pr), pr.to_string()
+        except Exception as ex:
+            continue
+        evaluations += 1
+        dist["whole_program_runs"] += 1
+        if before != after or text0 != text1:
+            diff = [(b[0], x[0], x[1], y[1]) for b, a in zip(before, after) for x, y in zip(b[1], a[1]) if x != y][:2]
+            fails.append({"sig": "C20:program-mutated", "what": "Program.run() altered raw arguments of the program it ran: %r%s" % (
+                diff, "" if text0 == text1 else "; to_string() before and after differ"), "replay": {"source": src, "history": ["from_source", "run()"]}})
     files = []
     CH = 300
     for i in range(0, len(cases), CH):
